@@ -484,7 +484,9 @@ def send_packet_rule(A, cf, rule):
                     key='%s-client-send-noop' % name, detail=v.describe(),
                     behaviour='send() on a disconnected client raises / queues into a dead '
                               'queue')
-    A.floor(rule, '%s _send_packet connected paths' % name, n, 1)
+    A.require(rule + '.noop', '%s _send_packet tests the connection state before queuing' % name,
+              n, 1, A.site(fi), key='%s-client-send-unguarded' % name,
+              behaviour='send() on a client that is not connected queues into a dead queue')
     fi, ps = cpaths(A, cf, 'send')
     P = pconsts(A)
     for p in ps:
